@@ -29,6 +29,58 @@ impl<T: Send + Sync> Drop for ConIterOfVec<T> {
     }
 }
 
+/// Owning iterator over a range of elements that are taken out of a buffer owned by someone else:
+/// yields the elements by value and drops the ones that are not consumed.
+pub(crate) struct TakenRange<T> {
+    ptr: *mut T,
+    pos: usize,
+    end: usize,
+}
+
+impl<T> TakenRange<T> {
+    /// # Safety
+    /// `ptr..ptr+len` must be valid, initialized and exclusively owned by the created iterator.
+    pub(crate) unsafe fn new(ptr: *mut T, len: usize) -> Self {
+        Self { ptr, pos: 0, end: len }
+    }
+}
+
+impl<T> Iterator for TakenRange<T> {
+    type Item = T;
+
+    fn next(&mut self) -> Option<T> {
+        match self.pos < self.end {
+            true => {
+                let value = unsafe { self.ptr.add(self.pos).read() };
+                self.pos += 1;
+                Some(value)
+            }
+            false => None,
+        }
+    }
+
+    fn size_hint(&self) -> (usize, Option<usize>) {
+        let len = self.end - self.pos;
+        (len, Some(len))
+    }
+}
+
+impl<T> ExactSizeIterator for TakenRange<T> {}
+
+impl<T> Drop for TakenRange<T> {
+    fn drop(&mut self) {
+        while self.pos < self.end {
+            let ptr = unsafe { self.ptr.add(self.pos) };
+            self.pos += 1;
+            unsafe { ptr.drop_in_place() };
+        }
+    }
+}
+
+unsafe impl<T: Send> Send for TakenRange<T> {}
+
+unsafe impl<T: Sync> Sync for TakenRange<T> {}
+
 impl<T: Send + Sync> ConIterOfVec<T> {
     /// Consumes and creates a concurrent iterator of the given `vec`.
     pub fn new(vec: Vec<T>) -> Self {
@@ -60,8 +112,7 @@ impl<T: Send + Sync> ConIterOfVec<T> {
         let len = end_idx - begin_idx;
 
         let ptr = vec.as_mut_ptr().add(begin_idx);
-        let vec = Vec::from_raw_parts(ptr, len, 0);
-        vec.into_iter()
+        TakenRange::new(ptr, len)
     }
 
     unsafe fn split_off_right(&self, left_len: usize) -> Vec<T> {
